@@ -95,7 +95,10 @@ impl CliCheck {
         for (i, a) in self.argv.iter().enumerate() {
             if !a.is_empty() && a.chars().all(|c| "+-<>,.[]".contains(c)) && !is_flag(a) {
                 let chars: Vec<char> = a.chars().collect();
-                for cut in [chars.len() / 2, 1] {
+                for cut in [chars.len() / 2, chars.len() / 16, 1] {
+                    if cut == 0 || (cut == 1 && chars.len() > 3000) {
+                        continue;
+                    }
                     for start in (0..chars.len()).step_by(cut.max(1)) {
                         let cand: String = chars[..start].iter().chain(chars[(start + cut).min(chars.len())..].iter()).collect();
                         if gen::balanced(&cand) || !gen::balanced(a) {
@@ -116,8 +119,9 @@ impl CliCheck {
             if let FileKind::Text(t) | FileKind::Fifo(t) = k {
                 let is_fifo = matches!(k, FileKind::Fifo(_));
                 let chars: Vec<char> = t.chars().collect();
-                for cut in [chars.len() / 2, 1] {
-                    if cut == 0 {
+                // (single-character cuts only for short texts: every candidate is a copy)
+                for cut in [chars.len() / 2, chars.len() / 16, 1] {
+                    if cut == 0 || (cut == 1 && chars.len() > 3000) {
                         continue;
                     }
                     for start in (0..chars.len()).step_by(cut) {
@@ -292,6 +296,10 @@ fn run_process(c: &CliCheck, serial: u64) -> Ran {
             libc::setrlimit(libc::RLIMIT_FSIZE, &fsize);
             let cpu = libc::rlimit { rlim_cur: 10, rlim_max: 12 };
             libc::setrlimit(libc::RLIMIT_CPU, &cpu);
+            // (--static reserves 4 GiB of address space with 64-bit cells; anything beyond
+            // twice that is a runaway and ends in the allocation-failure abort)
+            let mem = libc::rlimit { rlim_cur: 8 << 30, rlim_max: 8 << 30 };
+            libc::setrlimit(libc::RLIMIT_AS, &mem);
             // never outlive the worker (which the parent may kill at any moment)
             libc::prctl(libc::PR_SET_PDEATHSIG, libc::SIGKILL);
             Ok(())
@@ -637,6 +645,17 @@ pub fn generate(rng: &mut Rng, prop: &str, corpus: &[String]) -> CliCheck {
             code_args.push(vec![rng.pick(&["-f", "--file", "-file"]).to_string(), name]);
         } else {
             code_args.push(vec![f.clone()]);
+        }
+    }
+    // a source file read in blocks: a multi-byte comment character straddling a block
+    // boundary (4 KiB ... 128 KiB) behind comment filler, in front of the code
+    if rng.chance(1, 20) {
+        if let Some((_, FileKind::Text(t) | FileKind::Fifo(t))) = files.iter_mut().find(|(_, k)| matches!(k, FileKind::Text(_) | FileKind::Fifo(_))) {
+            let boundary = *rng.pick(&[4096usize, 8192, 16384, 32768, 65536, 65536, 131072]);
+            let ch = *rng.pick(&["é", "→", "𝄞"]);
+            let before = rng.urange(1, ch.len() - 1);
+            let filler: String = (0..boundary - before).map(|i| if i % 61 == 60 { '\n' } else { 'c' }).collect();
+            *t = format!("{}{}{}", filler, ch, t);
         }
     }
     // faults
